@@ -1,0 +1,15 @@
+//go:build verif
+
+// Contracts for package time (types/time), checked by /verif/govc (comment-only; see /verif/DESIGN.md).
+package time
+
+//@ func NewWeightedTime(time time.Time, weight int64) (r *WeightedTime)
+//@   for C03
+//@   modifies nothing
+//@   ensures [carriesTimeAndWeight] fresh(r) && r.Weight == weight && r.Time == time
+
+// WeightedMedian sorts its argument in place and walks it (sort.Slice with a comparison closure).
+//@ func WeightedMedian(weightedTimes []*WeightedTime, totalVotingPower int64) (res time.Time)
+//@   for C03
+//@   safe
+//@   modifies weightedTimes[_]
